@@ -563,7 +563,7 @@ constexpr int ROUTES_BASIC = (1 << RT_REF) | (1 << RT_EXACT) | (1 << RT_FINAL) |
 struct BasicOpts {
     std::vector<std::string> pols = ALL_POLS;
     std::vector<int> slots = ALL_SLOTS;
-    int min_cls = 2, max_cls = 10;
+    int min_cls = 1, max_cls = 10;
     int min_meth = 1, max_meth = 3;
     int min_defs = 0, max_defs = 8;
     double focus = 0.7;
